@@ -32,6 +32,10 @@ CHECKS = {
    text="Single-bit flips at generated (record, byte, bit) coordinates of every handshake/CCS record payload and per-record drop/duplicate/swap/truncate/extend/replay/reflect faults, for 3 protocols x 2 auth modes x 4 entropy streams. Oracle: never both endpoints complete; a stray record that can only arrive after the receiver finished its handshake must be rejected at the next read. The quick tier samples the fault space; it is enumerated only as far as the thorough budget reaches.",
    note="Trusted: the proxy and the deterministic replay (scripted entropy, frozen clock). Quiescence time-outs can only move a run towards 'not completed'.",
    design="4/C10"),
+ "C09": dict(level="fault_enumeration", technique="enumerated credential-defect matrix instantiated with generated material; each cell is a full handshake between real library endpoints (the defective peer doctored after tls_init where setters refuse), with a control run per cell",
+   text="3 protocols x verifying role x 22 credential defects x chain depth x instance; the verifying endpoint must not report a completed handshake, and the control cell must complete. Quick tier samples cells through Hypothesis, thorough covers each cell several times.",
+   note="Trusted: Python PKI builder; frozen clock. The defective peer is the library itself with doctored TLS_CONNECT fields (sign_key, kenc_key, client_certs_len).",
+   design="4/C09"),
 }
 
 NOT_YET = {
